@@ -29,6 +29,18 @@ NilArrs == {Arr(s) : s \in SeqsUpTo({IntV(2), Nil, Str("a")}, 3)}
 H(a, t) == Hash(<< <<"a", a>>, <<"t", Str(t)>> >>)
 HashEls == {H(IntV(2), "u"), H(IntV(3), "v"), H(IntV(2), "w"), Hash(<< <<"t", Str("q")>> >>), H(Nil, "r")}
 HashArrs == {Arr(s) : s \in SeqsUpTo(HashEls, 3)}
+\* the same hash written with its keys in the other order: equal, so a duplicate
+HRev(a, t) == Hash(<< <<"t", Str(t)>>, <<"a", a>> >>)
+PermArrs == {Arr(<<H(IntV(2), "u"), HRev(IntV(2), "u"), H(IntV(3), "v")>>), Arr(<<HRev(IntV(3), "v"), H(IntV(2), "u"), H(IntV(3), "v"), HRev(IntV(2), "u")>>)}
+NestedArgs == {Arr(<<Arr(<<IntV(8), IntV(9)>>), IntV(5)>>), Arr(<<Arr(<<>>)>>), Arr(<<IntV(4), Arr(<<Arr(<<IntV(6)>>)>>)>>)}
+WordStrs == {Str(""), Str("a"), Str("a b"), Str("a b c"), Str("ab cd ef gh"), Str("a  b"), Str(" a b"), Str("a\tb c")}
+MixStrs == {Arr(s) : s \in SeqsUpTo({Str("b"), Str("B"), Str("a"), Str("Ab")}, 3)}
+NumStrs == {Arr(s) : s \in SeqsUpTo({IntV(10), Str("9"), IntV(-2), Str("10")}, 3)}
+Special == {Str(""), Str("a b"), Str("a+b&c=d/e?f"), Str("<a href='x'>\"q\"</a>"), Str("100%"), Str("%41%20%3C+%7e"), Str("&lt;b&gt; &amp; &quot;x&#39;"), Str("a & b < c"), Str("&amp;amp;")}
+SliceStarts == {IntV(-7), IntV(-3), IntV(-1), IntV(0), IntV(1), IntV(2), IntV(5)}
+SliceLens == {IntV(-1), IntV(0), IntV(1), IntV(2), IntV(9)}
+Sliceable == {Str(""), Str("a"), Str("hello"), Arr(<<>>), Arr(<<IntV(2), IntV(3), IntV(7)>>), Arr(<<Str("a")>>)}
+SizeOf(v) == IF v.t = "str" THEN Len(v.v) ELSE Len(v.v)
 Nested == {Arr(<<IntV(2), Arr(<<IntV(3), Arr(<<IntV(7)>>)>>)>>), Arr(<<Arr(<<>>), IntV(2)>>)}
 
 Ap(n, l, args) == Apply(n, l, args, CfgD)
@@ -65,6 +77,49 @@ LawConcat == \A a \in IntArrs, b \in {Arr(<<>>), Arr(<<IntV(9)>>), Arr(<<IntV(2)
              /\ c.v = a.v \o b.v
              /\ Ap("size", c, <<>>) = IntV(Len(a.v) + Len(b.v))
              /\ Ap("sum", c, <<>>) = IntV(Ap("sum", a, <<>>).n + Ap("sum", b, <<>>).n)
+LawConcatNested == \A a \in IntArrs, b \in NestedArgs :
+             LET c == Ap("concat", a, <<b>>) IN Ok(c) /\ Len(c.v) = Len(a.v) + Len(b.v) /\ \A i \in DOMAIN b.v : c.v[Len(a.v) + i] = b.v[i]
+LawUniqDeep == \A a \in PermArrs :
+             LET u == Ap("uniq", a, <<>>) IN
+             /\ Ok(u) /\ \A i, j \in DOMAIN u.v : i # j => ~LEq(u.v[i], u.v[j])
+             /\ \A i \in DOMAIN a.v : \E j \in DOMAIN u.v : LEq(u.v[j], a.v[i])
+LawSlice == \A x \in Sliceable, st \in SliceStarts, ln \in SliceLens :
+             LET r == Ap("slice", x, <<st, ln>>) IN
+             Ok(r) => /\ SizeOf(r) <= MaxOf(ln.n, 0)                      \* never more than the length asked for
+                      /\ (st.n >= 0 /\ ln.n >= 0 /\ st.n + ln.n <= SizeOf(x)) => SizeOf(r) = ln.n
+                      /\ (st.n = 0 /\ ln.n >= SizeOf(x)) => r.v = x.v
+                      /\ (st.n >= 0 /\ st.n <= SizeOf(x) /\ x.t = "str") =>
+                            Ap("slice", x, <<IntV(0), st>>).v \o Ap("slice", x, <<st, IntV(99)>>).v = x.v
+                      /\ (st.n < 0 /\ -st.n <= SizeOf(x)) => r = Ap("slice", x, <<IntV(SizeOf(x) + st.n), ln>>)
+LawReplaceLast == \A s \in Strs \cup WordStrs, t \in {Str("a"), Str(" "), Str("ab"), Str("b c")} :
+             LET r == Ap("replace_last", s, <<t, Str("Z")>>) IN
+             /\ Ok(r)
+             /\ (~HasSub(s.v, t.v)) => r.v = s.v
+             /\ HasSub(s.v, t.v) => /\ Len(r.v) = Len(s.v) - Len(t.v) + 1
+                                   /\ (Ap("remove_last", s, <<t>>).v = ReplaceAll(r.v, "Z", "") \/ HasSub(s.v, "Z"))
+                                   \* everything after the replaced occurrence is free of t's start ... the last one
+                                   /\ \E i \in 1..Len(s.v) : /\ At(s.v, i, t.v)
+                                                              /\ r.v = SubSeq(s.v, 1, i - 1) \o "Z" \o SubSeq(s.v, i + Len(t.v), Len(s.v))
+                                                              /\ \A j \in (i + 1)..Len(s.v) : ~At(s.v, j, t.v)
+LawTruncateWords == \A s \in WordStrs, n \in {IntV(1), IntV(2), IntV(3), IntV(4)} :
+             LET r == Ap("truncatewords", s, <<n, Str("~")>>) IN
+             Ok(r) => /\ (Len(Words(s.v, "")) <= n.n => r.v = s.v)          \* fewer (or just as many) words: unchanged
+                      /\ (Len(Words(s.v, "")) > n.n => r.v = JoinStr(SubSeq(Words(s.v, ""), 1, n.n), " ") \o "~")
+LawSortNatural == \A a \in MixStrs :
+             LET r == Ap("sort_natural", a, <<>>) IN
+             Ok(r) /\ SameBag(r.v, a.v) /\ \A i \in 1..(Len(r.v) - 1) : ~StrLt(DownCase(r.v[i + 1].v), DownCase(r.v[i].v))
+LawSortNumeric == \A a \in NumStrs :
+             LET r == Ap("sort_numeric", a, <<>>) IN
+             Ok(r) /\ SameBag(r.v, a.v) /\ \A i \in 1..(Len(r.v) - 1) : NumLeft(r.v[i]) <= NumLeft(r.v[i + 1])
+LawUrl == \A s \in Special \cup Strs :
+             LET e == Ap("url_encode", s, <<>>) IN
+             AsciiOnly(s.v) => /\ Ok(e) /\ Ap("url_decode", e, <<>>).v = s.v
+                               /\ \A i \in 1..Len(e.v) : Find(UrlSafe, Ch(e.v, i)) > 0 \/ Ch(e.v, i) \in {"%", "+"}
+LawEscapeOnce == \A s \in Special :
+             LET o == Ap("escape_once", s, <<>>) IN
+             Ok(o) => /\ Ap("escape_once", o, <<>>) = o
+                      /\ Ap("escape_once", Ap("escape", s, <<>>), <<>>).v = Ap("escape", s, <<>>).v
+                      /\ \A i \in 1..Len(o.v) : Ch(o.v, i) \notin {"<", ">", "\"", "'"}
 LawFlatten == \A a \in Nested : Ap("sum", a, <<>>) = IntV(SumInts(Flatten(a.v, 5))) /\ \A i \in DOMAIN Ap("reverse", a, <<>>).v : Ap("reverse", a, <<>>).v[i].t # "arr"
 LawPartition == \A h \in HashArrs, v \in {Nil, IntV(2), IntV(3), Str("u")} :
              LET w == Ap("where", h, <<Str("a"), v>>)
@@ -136,7 +191,8 @@ LawDefault == \A v \in Ints \cup Strs \cup {Nil, Bool(FALSE), Bool(TRUE), Arr(<<
 
 Laws == /\ LawSort /\ LawReverse /\ LawUniq /\ LawCompact /\ LawConcat /\ LawFlatten /\ LawPartition /\ LawFind
         /\ LawKeyLambda /\ LawMap /\ LawSplitJoin /\ LawStrip /\ LawAppend /\ LawTruncate /\ LawArith
-        /\ LawNumericStrings /\ LawDefault
+        /\ LawNumericStrings /\ LawDefault /\ LawConcatNested /\ LawUniqDeep /\ LawSlice /\ LawReplaceLast /\ LawTruncateWords
+        /\ LawSortNatural /\ LawSortNumeric /\ LawUrl /\ LawEscapeOnce
 
 \* ---- single applications, for conformance ------------------------------------------
 A0(names, lefts) == {[n |-> f, l |-> l, args |-> <<>>, lam |-> FALSE] : f \in names, l \in lefts}
@@ -151,6 +207,14 @@ Apps ==
   \cup A1({"plus", "minus", "times", "divided_by", "modulo", "at_least", "at_most"}, Ints \cup {Str("3"), Str(" 7 "), Str("x"), Nil}, Ints \cup {Str("2"), Str("y"), Nil})
   \cup A1({"join", "concat"}, IntArrs \cup StrArrs, {Str(","), Arr(<<IntV(9)>>), Arr(<<>>), IntV(1), Nil})
   \cup A2({"replace", "replace_first", "truncate"}, Strs, {Str("a"), Str(" "), IntV(2), IntV(0), IntV(10)}, {Str("Z"), Str(""), Str("..")})
+  \cup A1({"concat"}, IntArrs, NestedArgs) \cup A0({"uniq", "compact", "reverse", "size"}, PermArrs)
+  \cup A1({"slice"}, Sliceable, SliceStarts) \cup A2({"slice"}, Sliceable, SliceStarts, SliceLens)
+  \cup A2({"replace_last"}, Strs \cup WordStrs, {Str("a"), Str(" "), Str("ab"), Str("b c")}, {Str("Z"), Str("")})
+  \cup A1({"remove_last"}, Strs \cup WordStrs, {Str("a"), Str(" "), Str("ab"), Str("b c")})
+  \cup A0({"truncatewords"}, WordStrs) \cup A1({"truncatewords"}, WordStrs, {IntV(0), IntV(1), IntV(2), IntV(3), IntV(4)})
+  \cup A2({"truncatewords"}, WordStrs, {IntV(1), IntV(2), IntV(3)}, {Str("~"), Str("")})
+  \cup A0({"sort_natural", "sort"}, MixStrs) \cup A0({"sort_numeric"}, NumStrs \cup IntArrs)
+  \cup A0({"url_encode", "url_decode", "escape_once", "escape"}, Special \cup Strs)
   \cup A1({"truncate"}, Strs, {IntV(0), IntV(2), IntV(3), IntV(10)})
   \cup A1({"map", "where", "reject", "find", "find_index", "has", "compact", "sort", "uniq", "sum"}, HashArrs, {Str("a"), Str("t")})
   \cup A2({"where", "reject", "find", "find_index", "has"}, HashArrs, {Str("a"), Str("t")}, {IntV(2), IntV(3), Str("u"), Nil, IntV(99)})
